@@ -66,16 +66,6 @@ pub open spec fn f_gt(a: f64, b: f64) -> bool { vstd::std_specs::cmp::PartialOrd
 pub open spec fn f_eq(a: f64, b: f64) -> bool { vstd::std_specs::cmp::PartialEqSpec::eq_spec(&a, &b) }
 
 // --- integer / float arms ---------------------------------------------------------------
-// the value of `i as f64` (IEEE round-to-nearest conversion), kept uninterpreted
-pub uninterp spec fn i2f(i: i64) -> f64;
-
-// TRUSTED(T6): the exec cast `i as f64` is a function of `i` (rule R12 routes every such cast here;
-// Verus itself leaves the cast's result unconstrained)
-#[verifier::external_body]
-pub fn i64_to_f64(i: i64) -> (r: f64)
-    ensures r == i2f(i),
-{ i as f64 }
-
 pub open spec fn cmp_int_float(bip: BuiltInPredicate, s: SS) -> Option<(i64, f64)> {
     match cmp_operands(bip, s) {
         Some(p) => match p { (Unifiable::SInteger(a), Unifiable::SFloat(b)) => Some((a, b)), _ => None },
